@@ -167,7 +167,11 @@ def gen_lines(kind, R):
             fixed, tail = gen_request(m, R)
             lines.append("|".join([rid, m] + ari.encode_args(m, fixed, tail)))
         elif c < 0.72:
-            lines.append("|".join([rid, R.choice(["XYZ", "KEEPALIVE", "RAC", "sub", "FAL"]), "S", "x"]))
+            # unknown methods, half of them near misses of real ones (a substring / superstring / other case of an init, close or
+            # request method must be as unknown as any other name)
+            near = ["PI", "DP", "MP", "D", "M", "P", "I", "DPIX", "XMPI", "DPI2", "dpi", "mpi", "Mpi", "SU", "UB", "US", "SUBS", "CLOS",
+                    "LOSE", "CLOSED", "close", "NU", "GI", "NUSX", "DPI MPI", "DPI,MPI", M[:2], M[1:], M.lower(), M + M]
+            lines.append("|".join([rid, R.choice(["XYZ", "KEEPALIVE", "RAC", "sub", "FAL"]) if R.random() < 0.5 else R.choice(near), "S", "x"]))
         elif c < 0.8:
             lines.append(R.choice(["", "|", rid, rid + "|", "  ", "|||"]))
         else:
